@@ -334,7 +334,12 @@ impl<W: Write> Print<W> for JsonOutputOptions {
         write!(f, "false")
     }
     fn print_f64(&self, f: &mut W, value: f64) -> FmtResult {
-        write!(f, "{value}")
+        if value.is_finite() {
+            write!(f, "{value}")
+        } else {
+            // JSON has no spelling for infinities and NaN.
+            write!(f, "null")
+        }
     }
     fn print_u64(&self, f: &mut W, value: u64) -> FmtResult {
         write!(f, "{value}")
